@@ -1,0 +1,16 @@
+//go:build verif
+
+// Contracts for package python, read by /verif/govc (comment-only file; excluded from every build without the tag "verif").
+package python
+
+// C08: the generated modules import each other by name (`from . import <module>`, `<module>.binary.X`): the name
+// they use, common.NamespaceIdentifierName(namespace), must be the name of the directory that Generate creates for
+// that namespace, or the generated package does not import.
+//@ observe-args python.writeNamespace
+//@ func Generate
+//@   property C08
+//@   iteration 0: imported_namespace_lives_in_the_directory_of_its_module_name: called("python.writeNamespace") && !old(ns.IsTopLevel) ==> lastArg("python.writeNamespace", 2) == path.Join(topPackageDir, common.NamespaceIdentifierName(old(ns.Name)))
+//@   iteration 0: top_level_namespace_lives_in_the_top_directory: called("python.writeNamespace") && old(ns.IsTopLevel) ==> lastArg("python.writeNamespace", 2) == topPackageDir
+
+// Output and diagnostics may not depend on the iteration order of a Go map (C12): decided per `range` over a map.
+//@ map-order C12 package
